@@ -51,6 +51,9 @@ type Leaf interface {
 	// match returns true if the leaf matches the segment, values of bind parameters
 	// are stored in the `Params`.
 	match(segment string, params Params, header http.Header) bool
+	// setShortLeaf sets the leaf that matches the route without its optional
+	// segment.
+	setShortLeaf(leaf Leaf)
 }
 
 // baseLeaf contains common fields for any leaf.
@@ -60,6 +63,7 @@ type baseLeaf struct {
 	segment       *Segment       // The segment that the leaf is derived from.
 	handler       Handler        // The handler bound to the leaf.
 	headerMatcher *HeaderMatcher // The matcher for header values.
+	shortLeaf     Leaf           // The leaf of the same route without its optional segment, if any.
 }
 
 func (l *baseLeaf) getParent() Tree {
@@ -72,6 +76,15 @@ func (l *baseLeaf) getSegment() *Segment {
 
 func (l *baseLeaf) SetHeaderMatcher(m *HeaderMatcher) {
 	l.headerMatcher = m
+
+	// The route is reachable both with and without its optional segment.
+	if l.shortLeaf != nil {
+		l.shortLeaf.SetHeaderMatcher(m)
+	}
+}
+
+func (l *baseLeaf) setShortLeaf(leaf Leaf) {
+	l.shortLeaf = leaf
 }
 
 func (l *baseLeaf) matchHeader(header http.Header) bool {
